@@ -216,3 +216,88 @@ Example ex_lookup : let vs := [mkMV [120] 2 IS_SDSVAR DFNT_INT32 2 0; mkMV [121]
   NoDup (map mv_ref vs) /\ sd_reftoindex vs 5 = Some 1%nat /\ sd_nametoindex vs [121] = Some 1%nat /\
   fst (sd_getcoordvar vs [121] 1 0 9) = vs.
 Proof. vm_compute. split; [repeat constructor; simpl; intuition discriminate|]. repeat split; reflexivity. Qed.
+
+(* ================================================================================================================ *)
+(** * Part 2 -- persistence across SDend / SDstart, and the whole-file oracle
+
+    AttrPersistModel.v: [store] (hdf_write_xdr_cdf / hdf_write_dim / hdf_write_var / hdf_write_attr) emits the CDF0.0
+    Vgroup with its dimension Vgroups, variable Vgroups and attribute Vdatas; [reload] (hdf_read_dims / hdf_read_vars /
+    hdf_read_attrs) parses them back; [mstep] is the oracle with the library's dimension -> coordinate variable lookup
+    BY NAME and persistence THROUGH THESE RECORDS in place of the specification's lookup by identity and [normalize].
+    Class names, field names and tags come from the translator.  The three recorded findings appear as explicit
+    hypotheses ([persist_ok], [no_orphan_named]) and as [..._refuted] witnesses on which the model behaves as the
+    library does. *)
+Require Import H4.AttrPersistModel H4.AttrPersistProofs.
+
+(** one attribute through hdf_write_attr / hdf_read_attrs: name, type, count and bytes come back when the name is a C
+    string the Vdata name can hold *)
+Theorem attr_record_roundtrip : forall a, nul_free (a_name a) -> zlen (a_name a) <= VSNAMELENMAX ->
+  decode_attr (encode_attr a) = Some a.
+Proof. exact attr_record_roundtrip_lemma. Qed.
+Print Assumptions attr_record_roundtrip.
+
+(** finding 1 (sd-attr-name-over-64-truncated-on-reopen) as a witness *)
+Theorem attr_name_truncation_refuted :
+  exists a, nul_free (a_name a) /\ zlen (a_name a) = VSNAMELENMAX + 1 /\ decode_attr (encode_attr a) <> Some a.
+Proof. exact attr_name_truncation_refuted_lemma. Qed.
+Print Assumptions attr_name_truncation_refuted.
+
+(** every attribute list, dimension table and variable table: what SDstart reads back from what SDend wrote is the
+    normal form of the state (dimensions in use, in table order; variables referring to them directly) *)
+Theorem persist_roundtrip : forall c, inv c -> persist_ok c -> reload (store c) = normalize c.
+Proof. exact persist_roundtrip_lemma. Qed.
+Print Assumptions persist_roundtrip.
+
+(** ... hence reload (store st) = st for every state in normal form (every state SDstart produces) *)
+Theorem reload_store_identity : forall st, inv st -> persist_ok st -> normalize st = st -> reload (store st) = st.
+Proof. exact reload_store_identity_lemma. Qed.
+Print Assumptions reload_store_identity.
+
+(** the library's lookup of a dimension's coordinate variable by name is the specification's lookup by identity *)
+Theorem coordvar_by_name_is_by_identity : forall c k, inv c -> live c k -> coord_by_name c k = coord_of c k.
+Proof. exact hooks_agree_lemma. Qed.
+Print Assumptions coordvar_by_name_is_by_identity.
+
+(** the invariant is established by SDstart(create) and kept by every operation *)
+Theorem state_invariant_kept : sinv init /\ forall s o, sinv s -> hyp s o -> sinv (fst (step s o)).
+Proof. exact (conj sinv_init step_inv_lemma). Qed.
+Print Assumptions state_invariant_kept.
+
+(** for EVERY history: the whole-file model returns, operation by operation, exactly the results of the whole-file
+    specification, and ends in the same state -- under the hypotheses that name findings 1 and 3 *)
+Theorem whole_file_refinement : forall ops s, sinv s -> hyps s ops -> run mstep s ops = run step s ops.
+Proof. exact whole_file_refinement_lemma. Qed.
+Print Assumptions whole_file_refinement.
+Theorem whole_file_refinement_from_start : forall ops, hyps init ops -> run mstep init ops = run step init ops.
+Proof. exact whole_file_refinement_init_lemma. Qed.
+Print Assumptions whole_file_refinement_from_start.
+
+(** finding 3 (sd-unnamed-dim-renumbered-on-write) and finding 1 at the level of whole histories: the model leaves
+    the specification exactly as the library does (dimension strings gone after reopen; SDfindattr fails) *)
+Theorem fake_renumbering_refuted :
+  fst (run mstep init ops_renumber) <> fst (run step init ops_renumber) /\
+  last (fst (run step init ops_renumber)) RFail = ROk [TB [108; 97; 98]; TB []; TB []] /\
+  last (fst (run mstep init ops_renumber)) RFail = ROk [TB []; TB []; TB []].
+Proof. exact fake_renumbering_refuted_lemma. Qed.
+Print Assumptions fake_renumbering_refuted.
+Theorem long_name_refuted :
+  last (fst (run step init ops_longname)) RFail = ROk [TI 0] /\ last (fst (run mstep init ops_longname)) RFail = RFail.
+Proof. exact long_name_refuted_lemma. Qed.
+Print Assumptions long_name_refuted.
+
+(** finding 2 (sd-dimscale-wider-type-over-existing-scale): the call fails and does not leave the old scale *)
+Theorem dimscale_wider_refuted :
+  let v := mkSV DFNT_CHAR8 (Some [9; 10; 11; 12; 13]) in
+  let '(v', ok) := setdimscale_model v DFNT_UINT16 [26; 27; 28; 29; 30; 31; 32; 33; 34; 35] in
+  ok = false /\ sv_nt v' <> sv_nt v /\ sv_elem v' = sv_elem v.
+Proof. exact dimscale_wider_refuted_lemma. Qed.
+Print Assumptions dimscale_wider_refuted.
+
+(** non-vacuity: an ordinary 16-operation history (create, name, scale, attributes, calibration, two reopens, a
+    renaming) meets every hypothesis; the state it leaves in the file is a normal form that reloads to itself *)
+Example ex_hyps_ordinary_history : hyps init ops_plain.
+Proof. exact ops_plain_hyps. Qed.
+Example ex_loaded_state :
+  let c := sd_saved (snd (run step init ops_plain)) in
+  normalize c = c /\ reload (store c) = c /\ length (s_vars c) = 3%nat /\ length (s_dims c) = 2%nat.
+Proof. exact loaded_state_example. Qed.
